@@ -164,9 +164,16 @@ pub fn scenario(seed: u64, rep: &mut Report) {
             if what < 30 {
                 // an established session (handler-faithful: the record verifies against the socket)
                 let bump = *rng.pick(&[0i64, 0, 1, 2]);
-                // a real handler reports the newer of the attached record and the one the service
-                // returned to its who-are-you query: never older than the stored one
-                if let Some((stored, _)) = prev.get(&nodes[k].id) {
+                // For an incoming session a real handler reports the newer of the attached record
+                // and the one the service returned to its who-are-you query: never older than the
+                // stored one. An outgoing session is reported with the record the request was
+                // dialled with, which may be older than what the table has learnt meanwhile
+                // (seen on the full stack).
+                let dir = if rng.bool() { ConnectionDirection::Incoming } else { ConnectionDirection::Outgoing };
+                let stale_dial = dir == ConnectionDirection::Outgoing && rng.chance(1, 2);
+                if stale_dial {
+                    rep.count("outgoing_sessions_with_possibly_stale_record");
+                } else if let Some((stored, _)) = prev.get(&nodes[k].id) {
                     let stored_seq = decoded(&mut cache, stored).seq();
                     if nodes[k].seq < stored_seq {
                         nodes[k].seq = stored_seq;
@@ -178,7 +185,6 @@ pub fn scenario(seed: u64, rep: &mut Report) {
                 }
                 let enr = shape(&mut rng, &mut nodes[k], bump);
                 let sock = session_socket(mode, &enr, &mut rng);
-                let dir = if rng.bool() { ConnectionDirection::Incoming } else { ConnectionDirection::Outgoing };
                 log.push(json!({"step": step, "ev": "Established", "node": hx(&nodes[k].id[..4]), "seq": enr.seq(), "udp4": enr.udp4_socket().map(|s| s.to_string()), "udp6": enr.udp6_socket().map(|s| s.to_string()), "socket": sock.to_string(), "dir": format!("{dir:?}")}));
                 may_add.push(nodes[k].id);
                 may_replace_session.push(nodes[k].id);
